@@ -161,14 +161,20 @@ func Open(options Options) (*DB, error) {
 			for {
 				select {
 				case <-ticker.C:
-					if flushes == db.bytesWrite {
+					// bytesWrite 会被并发的写入操作修改, 需在锁内访问
+					db.mu.RLock()
+					written := db.bytesWrite
+					db.mu.RUnlock()
+					if flushes == written {
 						continue
 					}
 					if err := db.Merge(); err != nil {
 						// 记录错误日志
 						fmt.Printf("failed to merge db: %v\n", err)
 					}
+					db.mu.RLock()
 					flushes = db.bytesWrite
+					db.mu.RUnlock()
 				case <-db.closedChan:
 					return
 				}
